@@ -48,7 +48,7 @@ func genTopo(t *rapid.T, maxClients int) kit.Topo {
 	if rapid.Bool().Draw(t, "multi") {
 		n = rapid.IntRange(1, maxClients).Draw(t, "clients")
 	}
-	return kit.Topo{Kind: kind, Serialize: rapid.Bool().Draw(t, "ser"), Clients: n}
+	return kit.Topo{Kind: kind, Serialize: rapid.Bool().Draw(t, "ser"), Clients: n, Stats: rapid.IntRange(0, 3).Draw(t, "stats") == 0}
 }
 
 func genC01(t *rapid.T) C01Case {
@@ -241,7 +241,7 @@ func execC01(t *testing.T, c C01Case) (v Verdict) {
 		nclass = "2-8"
 	}
 	v.Info.Labels = []string{"topo=" + c.Topo.Kind, fmt.Sprintf("ser=%v", c.Topo.Serialize), "n=" + nclass,
-		"maxreq=" + kit.SizeClass(maxLen), fmt.Sprintf("reordered=%v", reordered), fmt.Sprintf("clients=%d", c.Topo.Clients), fmt.Sprintf("time_passes=%v", c.TickMs > 0)}
+		"maxreq=" + kit.SizeClass(maxLen), fmt.Sprintf("reordered=%v", reordered), fmt.Sprintf("clients=%d", c.Topo.Clients), fmt.Sprintf("time_passes=%v", c.TickMs > 0), fmt.Sprintf("stats=%v", c.Topo.Stats)}
 	v.Info.NonTrivial = (n >= 2 && reordered) || hasEmpty || maxLen >= 16384
 	key, _ := json.Marshal(c)
 	v.Info.Key = string(key)
